@@ -21,7 +21,7 @@ ASSUMPTIONS = ['file system = a dictionary path -> inode; writers are BUFFERED a
                'statement is about a killed process, not a power failure)', 'pickle is an opaque encoder: a complete blob unpickles to a deep copy, an empty file raises EOFError, a '
                'truncated one pickle.UnpicklingError (what CPython does)', 'one option (warning_level) is changed from 1 to 2; it was given on the original command line',
                'backend generation is two steps (write build.ninja~, rename)', 'the DirectoryLock is not modelled (one process)']
-OUT = ('the interpreter / backend run between the persistence steps, introspection files, --wipe (its own copy/restore of cmd_line.txt), VS/Xcode backends, power-loss semantics, '
+OUT = ('the interpreter / backend run between the persistence steps, introspection files, a kill INSIDE the removal of one directory entry by --wipe (entries are one step each; the backup / empty / restore protocol itself is kill[wipe]), VS/Xcode backends, power-loss semantics, '
        'the exit status of a whole `meson setup` run (only its state-loading front end is executed)')
 MANIFEST = dict(
     text='Bounded model checking of the persistence protocol with the kill point as a symbolic variable: for every step of the real coredata.save / build.save / cmd_line.txt writers '
